@@ -131,6 +131,35 @@ def integer_valued_logprob_native(vc):
     vc.inputs["left_flat_top"] = bool(any(v != 0.0 for _, v in post.calls))
 
 
+@bounded("C15", "default_widths_native", native_runs=8)
+def default_widths_native(vc):
+    """chains built without explicit proposal widths (the constructor derives them from the starting point) from starting points
+    with negative, zero and positive coordinates: advancing works and adds exactly the requested number of samples, and the derived
+    widths are positive"""
+    from inference.mcmc import GibbsChain, PcaChain
+    from inference.mcmc.gibbs import MetropolisChain
+    kind = vc.choice("sampler", ["gibbs", "pca", "metropolis"])
+    seed = vc.int("seed", lo=0, hi=10 ** 6)
+    rng = np.random.default_rng(seed)
+    d = vc.int("d", lo=1, hi=3)
+    start = rng.normal(size=d) * 3.0
+    signs = vc.choice("start", ["negative", "mixed", "with_zero"])
+    if signs == "negative":
+        start = -np.abs(start) - 0.5
+    elif signs == "with_zero":
+        start[0] = 0.0
+    mu = start.copy()
+    post = lambda t: float(-0.5 * np.sum((np.asarray(t, dtype=float) - mu) ** 2))
+    cls = {"gibbs": GibbsChain, "pca": PcaChain, "metropolis": MetropolisChain}[kind]
+    ch = cls(posterior=post, start=start, display_progress=False)
+    seed_chain(ch, seed)
+    vc.ensures("derived_widths_are_positive", all(float(p.sigma) > 0 for p in ch.params))
+    quiet(ch.advance, 150)
+    X, P = stored_points(ch)
+    vc.ensures("advance_adds_the_requested_samples", X.shape[0] == 151 and len(P) == 151 and ch.chain_length == 151)
+    vc.ensures("the_chain_moves", bool(np.all(X.std(axis=0) > 0)))
+
+
 @bounded("C03", "shared_inputs_native", native_runs=20)
 def shared_inputs_native(vc):
     """samplers built from the same input arrays evolve independently and leave the arrays unchanged"""
